@@ -514,8 +514,10 @@ package core
 //@   pure
 //@ assume func (BuildTarget).DeclaredOutputNames
 //@   pure
-//@ assume func (BuildTarget).IsTest
-//@   pure
+//@ func (BuildTarget).IsTest
+//@   requires target != nil
+//@   modifies nothing
+//@   ensures exact: result == (target.Test != nil)
 
 // ---------------------------------------------------------------------------------------------
 // Hermetic build environment (C10)
